@@ -515,7 +515,6 @@ class View:
     def required_at(self, uid: str, labels: dict, T: float) -> list[str]:
         """Who requires the finalizer at instant T on an object with these labels (from the statement)."""
         why = []
-        tm = self.t_marked(uid)
         for h in self.handlers:
             if not _match(h, labels):
                 continue
@@ -526,8 +525,12 @@ class View:
                 for c in self.live_calls(h, uid, T):
                     o = h.get("opts") or {}
                     to = o.get("cancellation_timeout")
-                    if h["kind"] == "daemon" and to is not None and tm is not None and T >= tm + (o.get("cancellation_backoff") or 0) + to:
-                        continue   # abandoned after its timeouts
+                    # abandoned after its timeouts: the stopping began no earlier than the first version in the daemon's
+                    # life that is marked or that its filters do not match (kopf counts from its own first stop call)
+                    stops = [v["t"] for v in self.versions(uid) if v["t"] >= c["t"] and v["event"] != "DELETED" and
+                             (_meta(v["body"]).get("deletionTimestamp") or not _match(h, _labels(v["body"])))]
+                    if h["kind"] == "daemon" and to is not None and stops and T >= min(stops) + (o.get("cancellation_backoff") or 0) + to:
+                        continue
                     why.append(f"{h['kind']} {h['id']} (started {c['t']}) is alive")
         return why
 
